@@ -118,75 +118,98 @@ Fixpoint bind_params (ps : list (nat * ty)) (vs : list value) : option scope :=
 Definition for_cond (incl : bool) (st i h : Z) : bool :=
   ((0 <? st) && (if incl then i <=? h else i <? h)) || ((st <? 0) && (if incl then h <=? i else h <? i)).
 
+(* write the final values of by-reference parameters back into the caller's variables *)
+Fixpoint copy_out (args : list (bool * expr)) (finals : list value) (en : env) : option env :=
+  match args, finals with
+  | [], [] => Some en
+  | (true, EVar x) :: ar, v :: fr => match update x v en with Some en' => copy_out ar fr en' | None => None end
+  | (true, _) :: _, _ :: _ => None
+  | (false, _) :: ar, _ :: fr => copy_out ar fr en
+  | _, _ => None
+  end.
+
+(* the last n entries of a scope (a function's parameters sit at the bottom of its outermost scope) *)
+Definition lastn {A} (n : nat) (l : list A) : list A := skipn (length l - n) l.
+
 Section Exec.
 Variable structs : structs_t.
-Variable callf : nat -> list value -> list line -> res value.
+(* the meaning of a call: result value and the final values of the callee's parameters *)
+Variable callf : nat -> list value -> list line -> res (value * list value).
 
-Fixpoint eval (e : expr) (en : env) (out : list line) {struct e} : res value :=
+(* evaluation yields a value and the environment after it: a call with by-reference arguments updates the caller's variables,
+   and whatever is evaluated afterwards (left to right) sees the update *)
+Fixpoint eval (e : expr) (en : env) (out : list line) {struct e} : res (value * env) :=
   match e with
-  | ELit t v => Ok (VInt t v) out
-  | EBool b => Ok (VBool b) out
-  | EVar x => match lookup x en with Some v => Ok v out | None => Wrong end
+  | ELit t v => Ok (VInt t v, en) out
+  | EBool b => Ok (VBool b, en) out
+  | EVar x => match lookup x en with Some v => Ok (v, en) out | None => Wrong end
   | EBin o a b =>
       match o with
-      | And => bind (eval a en out) (fun va out =>
-                 match va with
-                 | VBool false => Ok (VBool false) out
-                 | VBool true => bind (eval b en out) (fun vb out =>
-                                   match vb with VBool _ => Ok vb out | _ => Wrong end)
+      | And => bind (eval a en out) (fun ra out =>
+                 match fst ra with
+                 | VBool false => Ok (VBool false, snd ra) out
+                 | VBool true => bind (eval b (snd ra) out) (fun rb out =>
+                                   match fst rb with VBool _ => Ok rb out | _ => Wrong end)
                  | _ => Wrong end)
-      | Or => bind (eval a en out) (fun va out =>
-                 match va with
-                 | VBool true => Ok (VBool true) out
-                 | VBool false => bind (eval b en out) (fun vb out =>
-                                   match vb with VBool _ => Ok vb out | _ => Wrong end)
+      | Or => bind (eval a en out) (fun ra out =>
+                 match fst ra with
+                 | VBool true => Ok (VBool true, snd ra) out
+                 | VBool false => bind (eval b (snd ra) out) (fun rb out =>
+                                   match fst rb with VBool _ => Ok rb out | _ => Wrong end)
                  | _ => Wrong end)
       | _ =>
-        bind (eval a en out) (fun va out =>
-        bind (eval b en out) (fun vb out =>
-          match va, vb with
+        bind (eval a en out) (fun ra out =>
+        bind (eval b (snd ra) out) (fun rb out =>
+          match fst ra, fst rb with
           | VInt t x, VInt t' y =>
               if ity_eqb t t' then
                 if is_arith o then
-                  match arith o t x y with Some z => Ok (VInt t z) out | None => Undef out end
-                else match compare o x y with Some c => Ok (VBool c) out | None => Wrong end
+                  match arith o t x y with Some z => Ok (VInt t z, snd rb) out | None => Undef out end
+                else match compare o x y with Some c => Ok (VBool c, snd rb) out | None => Wrong end
               else Wrong
           | VBool x, VBool y =>
               match o with
-              | Eq => Ok (VBool (Bool.eqb x y)) out
-              | Ne => Ok (VBool (negb (Bool.eqb x y))) out
+              | Eq => Ok (VBool (Bool.eqb x y), snd rb) out
+              | Ne => Ok (VBool (negb (Bool.eqb x y)), snd rb) out
               | _ => Wrong
               end
           | _, _ => Wrong
           end))
       end
-  | EUn Neg a => bind (eval a en out) (fun va out =>
-                   match va with VInt t x => Ok (VInt t (wrap t (- x))) out | _ => Wrong end)
-  | EUn Not a => bind (eval a en out) (fun va out =>
-                   match va with VBool b => Ok (VBool (negb b)) out | _ => Wrong end)
-  | ECast a t => bind (eval a en out) (fun va out =>
-                   match va with VInt _ x => Ok (VInt t (wrap t x)) out | _ => Wrong end)
+  | EUn Neg a => bind (eval a en out) (fun ra out =>
+                   match fst ra with VInt t x => Ok (VInt t (wrap t (- x)), snd ra) out | _ => Wrong end)
+  | EUn Not a => bind (eval a en out) (fun ra out =>
+                   match fst ra with VBool b => Ok (VBool (negb b), snd ra) out | _ => Wrong end)
+  | ECast a t => bind (eval a en out) (fun ra out =>
+                   match fst ra with VInt _ x => Ok (VInt t (wrap t x), snd ra) out | _ => Wrong end)
   | ECall g es =>
-      (fix evals (es : list expr) (acc : list value) (out : list line) {struct es} : res value :=
+      (fix evals (es : list expr) (acc : list value) (en : env) (out : list line) {struct es} : res (value * env) :=
          match es with
-         | [] => callf g (rev acc) out
-         | e1 :: r => bind (eval e1 en out) (fun v out => evals r (v :: acc) out)
-         end) es [] out
+         | [] => bind (callf g (rev acc) out) (fun r out => Ok (fst r, en) out)
+         | e1 :: r => bind (eval e1 en out) (fun r1 out => evals r (fst r1 :: acc) (snd r1) out)
+         end) es [] en out
+  | ECallR g args =>
+      (fix evals (as_ : list (bool * expr)) (acc : list value) (en : env) (out : list line) {struct as_} : res (value * env) :=
+         match as_ with
+         | [] => bind (callf g (rev acc) out) (fun r out =>
+                   match copy_out args (snd r) en with Some en' => Ok (fst r, en') out | None => Wrong end)
+         | a1 :: r => bind (eval (snd a1) en out) (fun r1 out => evals r (fst r1 :: acc) (snd r1) out)
+         end) args [] en out
   | EStructLit sid es =>
-      (fix flds (es : list expr) (acc : list Z) (out : list line) {struct es} : res value :=
+      (fix flds (es : list expr) (acc : list Z) (en : env) (out : list line) {struct es} : res (value * env) :=
          match es with
-         | [] => Ok (VStruct sid (rev acc)) out
-         | e1 :: r => bind (eval e1 en out) (fun v out =>
-                        match v with VInt _ z => flds r (z :: acc) out | _ => Wrong end)
-         end) es [] out
+         | [] => Ok (VStruct sid (rev acc), en) out
+         | e1 :: r => bind (eval e1 en out) (fun r1 out =>
+                        match fst r1 with VInt _ z => flds r (z :: acc) (snd r1) out | _ => Wrong end)
+         end) es [] en out
   | EField a k =>
-      bind (eval a en out) (fun va out =>
-        match va with
+      bind (eval a en out) (fun ra out =>
+        match fst ra with
         | VStruct sid fs =>
             match nth_error structs sid with
             | Some fts =>
                 match nth_error fts k, nth_error fs k with
-                | Some t, Some z => Ok (VInt t z) out
+                | Some t, Some z => Ok (VInt t z, snd ra) out
                 | _, _ => Wrong
                 end
             | None => Wrong
@@ -205,23 +228,23 @@ Fixpoint exec (k : nat) (s : stmt) (en : env) (out : list line) {struct s} : res
                   | (en', FNormal) => exec k b en' out
                   | other => Ok other out
                   end)
-  | SLet x _ e => bind (eval e en out) (fun v out => Ok (declare x v en, FNormal) out)
-  | SAssign x e => bind (eval e en out) (fun v out =>
-                     match update x v en with Some en' => Ok (en', FNormal) out | None => Wrong end)
+  | SLet x _ e => bind (eval e en out) (fun r out => Ok (declare x (fst r) (snd r), FNormal) out)
+  | SAssign x e => bind (eval e en out) (fun r out =>
+                     match update x (fst r) (snd r) with Some en' => Ok (en', FNormal) out | None => Wrong end)
   | SAssignField x k e =>
-      bind (eval e en out) (fun v out =>
-        match v, lookup x en with
+      bind (eval e en out) (fun r out =>
+        match fst r, lookup x (snd r) with
         | VInt _ z, Some (VStruct sid fs) =>
             match set_nth k z fs with
-            | Some fs' => match update x (VStruct sid fs') en with Some en' => Ok (en', FNormal) out | None => Wrong end
+            | Some fs' => match update x (VStruct sid fs') (snd r) with Some en' => Ok (en', FNormal) out | None => Wrong end
             | None => Wrong
             end
         | _, _ => Wrong
         end)
-  | SIf c a b => bind (eval c en out) (fun vc out =>
-                   match vc with
-                   | VBool true => bind (exec k a ([] :: en) out) (fun r out => Ok (pop_scope r) out)
-                   | VBool false => bind (exec k b ([] :: en) out) (fun r out => Ok (pop_scope r) out)
+  | SIf c a b => bind (eval c en out) (fun rc out =>
+                   match fst rc with
+                   | VBool true => bind (exec k a ([] :: snd rc) out) (fun r out => Ok (pop_scope r) out)
+                   | VBool false => bind (exec k b ([] :: snd rc) out) (fun r out => Ok (pop_scope r) out)
                    | _ => Wrong
                    end)
   | SBlock a => bind (exec k a ([] :: en) out) (fun r out => Ok (pop_scope r) out)
@@ -230,11 +253,11 @@ Fixpoint exec (k : nat) (s : stmt) (en : env) (out : list line) {struct s} : res
          match n with
          | O => Fuel
          | S n' =>
-           bind (eval c en out) (fun vc out =>
-             match vc with
-             | VBool false => Ok (en, FNormal) out
+           bind (eval c en out) (fun rc out =>
+             match fst rc with
+             | VBool false => Ok (snd rc, FNormal) out
              | VBool true =>
-                 bind (exec k body ([] :: en) out) (fun r out =>
+                 bind (exec k body ([] :: snd rc) out) (fun r out =>
                    match snd r with
                    | FBreak => Ok (tl (fst r), FNormal) out
                    | FReturn v => Ok (tl (fst r), FReturn v) out
@@ -244,10 +267,10 @@ Fixpoint exec (k : nat) (s : stmt) (en : env) (out : list line) {struct s} : res
              end)
          end) k en out
   | SFor x t lo hi incl step body =>
-      bind (eval lo en out) (fun vlo out =>
-      bind (eval hi en out) (fun vhi out =>
-      bind (eval step en out) (fun vst out =>
-        match vlo, vhi, vst with
+      bind (eval lo en out) (fun rlo out =>
+      bind (eval hi (snd rlo) out) (fun rhi out =>
+      bind (eval step (snd rhi) out) (fun rst out =>
+        match fst rlo, fst rhi, fst rst with
         | VInt t1 l, VInt t2 h, VInt t3 st =>
           (fix loop (n : nat) (i : Z) (en : env) (out : list line) {struct n} : res (env * flow) :=
              match n with
@@ -261,30 +284,32 @@ Fixpoint exec (k : nat) (s : stmt) (en : env) (out : list line) {struct s} : res
                    | _ => loop n' (wrap t (Z.add i st)) (tl (fst r)) out
                    end)
                else Ok (en, FNormal) out
-             end) k l en out
+             end) k l (snd rst) out
         | _, _, _ => Wrong
         end)))
   | SBreak => Ok (en, FBreak) out
   | SContinue => Ok (en, FContinue) out
   | SReturn None => Ok (en, FReturn VUnit) out
-  | SReturn (Some e) => bind (eval e en out) (fun v out => Ok (en, FReturn v) out)
+  | SReturn (Some e) => bind (eval e en out) (fun r out => Ok (snd r, FReturn (fst r)) out)
   | SPrint es =>
-      (fix prints (es : list expr) (acc : line) (out : list line) {struct es} : res (env * flow) :=
+      (fix prints (es : list expr) (acc : line) (en : env) (out : list line) {struct es} : res (env * flow) :=
          match es with
          | [] => Ok (en, FNormal) (out ++ [rev acc])
-         | e1 :: r => bind (eval e1 en out) (fun v out =>
-                        match item_of v with Some it => prints r (it :: acc) out | None => Wrong end)
-         end) es [] out
-  | SExpr e => bind (eval e en out) (fun _ out => Ok (en, FNormal) out)
+         | e1 :: r => bind (eval e1 en out) (fun r1 out =>
+                        match item_of (fst r1) with Some it => prints r (it :: acc) (snd r1) out | None => Wrong end)
+         end) es [] en out
+  | SExpr e => bind (eval e en out) (fun r out => Ok (snd r, FNormal) out)
   end.
 End Exec.
 
+(* ------------------------------------------------------------------ programs *)
 Section WithProg.
 Variable structs : structs_t.
 Variable p : prog.
 
-(* call function f with argument values; fuel decreases at every call; a loop runs at most `fuel` iterations *)
-Fixpoint call (fuel : nat) (f : nat) (args : list value) (out : list line) {struct fuel} : res value :=
+(* call function f with argument values; fuel decreases at every call; a loop runs at most `fuel` iterations.
+   Result: the returned value and the final values of the parameters (read by callers that passed variables by reference) *)
+Fixpoint call (fuel : nat) (f : nat) (args : list value) (out : list line) {struct fuel} : res (value * list value) :=
   match fuel with
   | O => Fuel
   | S fuel' =>
@@ -295,9 +320,10 @@ Fixpoint call (fuel : nat) (f : nat) (args : list value) (out : list line) {stru
       | None => Wrong
       | Some sc =>
         bind (exec structs (call fuel') fuel' (fbody fd) [sc] out) (fun r out =>
+          let finals := map snd (lastn (length sc) (hd [] (fst r))) in
           match snd r with
-          | FReturn v => Ok v out
-          | FNormal => Ok VUnit out
+          | FReturn v => Ok (v, finals) out
+          | FNormal => Ok (VUnit, finals) out
           | _ => Wrong
           end)
       end
